@@ -9,7 +9,9 @@ import warnings
 from decimal import Decimal
 from fractions import Fraction
 
-from . import regs
+from . import regs, core
+import os
+import sys
 from .core import Property, capture, frac_s, canon, err_name
 
 PREFIXES = ["kilo", "milli", "micro", "mega", "nano", "giga"]
@@ -211,7 +213,7 @@ class Check(Property):
         k = c["kind"]
         if not getattr(self, "_known_done", False):
             self._known_done = True
-            kv = self.known_probes()
+            kv = self.known_probes() + self.cross_process_probe()
             if kv:
                 return kv
         if k == "object":
@@ -444,6 +446,41 @@ class Check(Property):
         except Exception as exc:  # noqa: BLE001
             v.append(f"C18 adding quantities of a registry and of its deep copy raised {type(exc).__name__}")
         return v
+
+    def cross_process_probe(self):
+        """objects pickled in ANOTHER interpreter (other string-hash seed) after they were hashed and compared there: loaded here
+        they equal, and hash like, the objects built here from the same text"""
+        import base64
+        import pickle
+        import subprocess
+        v = []
+        code = ("import sys, pickle, base64; sys.path.insert(0, %r); import pint\n"
+                "u = pint.get_application_registry()\n"
+                "objs = [u.Unit('kilometer / second'), u.Quantity(3, 'kilometer / second'), u.Unit('meter / second ** 2'),\n"
+                "        pint.util.UnitsContainer(kilometer=1, second=-1), u.Unit('kilogram * meter ** 2 / second ** 2').dimensionality,\n"
+                "        u.Quantity(2.5, 'microfarad'), (u.meter * u.second) ** 0.5]\n"
+                "for o in objs:\n    hash(o), o == o, {o: 1}\n"
+                "print(base64.b64encode(pickle.dumps(objs, int(sys.argv[1]))).decode())") % core.REPO
+        app = __import__("pint").get_application_registry()
+        local = [app.Unit("kilometer / second"), app.Quantity(3, "kilometer / second"), app.Unit("meter / second ** 2"),
+                 __import__("pint").util.UnitsContainer(kilometer=1, second=-1), app.Unit("kilogram * meter ** 2 / second ** 2").dimensionality,
+                 app.Quantity(2.5, "microfarad"), (app.meter * app.second) ** 0.5]
+        for seed in ("1", "2"):
+            for proto in (2, 5):
+                try:
+                    r = subprocess.run([sys.executable, "-c", code, str(proto)], capture_output=True, text=True, timeout=300,
+                                       env=dict(os.environ, PYTHONHASHSEED=seed))
+                    loaded = pickle.loads(base64.b64decode(r.stdout.strip().splitlines()[-1]))
+                except Exception as exc:  # noqa: BLE001
+                    v.append(f"C18 cross-process probe (seed {seed}, protocol {proto}) could not run: {type(exc).__name__}: {exc}")
+                    continue
+                for a, b in zip(loaded, local):
+                    ua, ub = getattr(a, "units", a), getattr(b, "units", b)
+                    if not (a == b and ua == ub and hash(ua) == hash(ub) and {ub: 1}.get(ua) == 1):
+                        v.append(f"C18/C04 {b!r} pickled in another interpreter (PYTHONHASHSEED={seed}, protocol {proto}) after being hashed "
+                                 f"there: loaded == built here: {a == b}, units equal: {ua == ub}, hashes equal: {hash(ua) == hash(ub)}")
+                        break
+        return v[:4]
 
     def oracle_lazy(self):
         import pint
